@@ -18,7 +18,8 @@ STRINGS = ["'abc'", "'abcdefghij'", "''", "'a'", "'ab''cd'", "'ab''cdef'", "''ab
            "'\u1112\u1161\u11ab\u1100\u1173\u11af abc'", "'e\u0301'", "'ab\u200dcd\u200befgh'", "'👍🏽👍🏽👍🏽'"]
 QNAMES = ['"Quoted"', '"a""b"', '" Lead"', '""', '"ŉ"', '`Back`', '`ŉx`', '´Acute´', '[Br Name]', '[ŉ]', ' "x"',
           '"abc', 'abc"', '"a\\"b"', '[a]', 'x[Idx]', '@Var', '##Tmp', '#T1', ':Ph', '$1', '%s', '%(Nm)s', '?']
-KWS = ["at time zone 'Europe/Berlin'", "AT TIME ZONE 'utc'", "with' time zone 'X'", 'Order  By', 'group\tby',
+KWS = ["at time zone 'Europe/Berlin'", "AT TIME ZONE 'utc'", "with' time zone 'X'", "timestamp with time zone 'Europe/Berlin xyz'",
+       "WITH TIME ZONE 'utc time'", 'Order  By', 'group\tby',
        'Not\nNull', 'union all', 'LEFT outer Join', 'end if', 'END   LOOP', 'Nulls First', 'desc nulls last',
        'go 2', 'Create Or Replace', 'primary key', 'handler for', 'lateral view explode', 'Double Precision',
        'not like', 'NOT  ILIKE', 'regexp', 'Case', 'when', 'In', 'values', 'Using', 'from', 'As', 'Int', 'varchar',
